@@ -63,9 +63,103 @@ def run(chk):
             "(#recent askers with that id, ring fill, id class)" % depth)
     chk.cov["exhaustive"] = False
     chk.notes["exhaustive_depth"] = depth
-    vlib.pure_check(chk, ops, oracle_factory(), rule, "FwQuery ring vs fw_query.c", sequential=True)
+    sbad = server_part(chk)
+    vlib.pure_check(chk, ops, oracle_factory(), rule + "; plus forward_query/tunnel_bind in the real server loop (h_srv): askers over IPv4/IPv6, names of 3..253 "
+                    "characters, id reuse, replies for remembered and unknown ids", "FwQuery ring vs fw_query.c", sequential=True)
     chk.assumptions.append("forward_query/tunnel_bind glue (re-encoding, sockaddr handling) is covered by the server-harness part of this check when present")
 
 
+def server_part(chk):
+    """forward_query / tunnel_bind of the real iodined loop (h_srv, forwarding enabled): every non-tunnel query must be relayed with the
+    same id, name and type; a reply is relayed unchanged to the asker of a remembered query with that id and to nobody else."""
+    import struct
+    import iodproto as P
+    import srvgen
+    rng, thorough = chk.rng, chk.tier == "thorough"
+    exe = vlib.build_srv()
+    bad, nops = 0, 0
+    for run_i in range(40 if thorough else 10):
+        h = srvgen.Harness(exe)
+        td = b"t.example.com"
+        h.send("cfg 1 %s 0a000001 27 %s 1130 00000000 5353 7f000001 %s" % (vlib.hx(b"pw"), vlib.hx(td), "00" * 15 + "01"))
+        window = []         # (asker address, id) of forwarded queries, oldest first
+        ids = rng.choice([[0, 1, 2, 3, 4], list(range(1, 40)), [0, 65535, 7, 7727]])
+        for _ in range(rng.randrange(20, 90)):
+            if h.dead:
+                break
+            if rng.random() < 0.6:
+                fam = 6 if rng.random() < 0.3 else 4
+                asker = srvgen.addr(0x0a630000 | rng.randrange(1, 5), rng.choice([53, 4000, 4001])) if fam == 4 else srvgen.addr((0xfd00 << 112) | rng.randrange(1, 4), 4000, 6)
+                labels = rng.choice([1, 2, 3])
+                n = rng.choice([3, 10, 60, 200, 243, 244, 250, 253])
+                name = b"x" * min(63, n)
+                while len(name) < n:
+                    name += b"." + b"y" * min(63, n - len(name) - 1)
+                name = name.rstrip(b".")
+                if name.lower().endswith(td):
+                    name = name[:-1] + b"q"
+                id_, qt = rng.choice(ids), rng.choice([1, 16, 28, 15, 255])
+                st = h.send("q %s %d %d %s" % (asker, id_, qt, vlib.hx(name)))
+                if st is None:
+                    break
+                nops += 1
+                fw = [e for e in st.events if e[0] == "fwd"]
+                why = None
+                if len(fw) != 1:
+                    why = "%d datagrams were sent to the local DNS port" % len(fw)
+                elif fw[0][1] != "4:7f000001:5353":
+                    why = "relayed to %s, not to 127.0.0.1:5353" % fw[0][1]
+                else:
+                    try:
+                        m = P.parse(vlib.unhx(fw[0][2]))
+                        if m["id"] != id_ or len(m["qd"]) != 1 or m["qd"][0][0] != name or m["qd"][0][1] != qt:
+                            why = "relayed query has id %d name %r type %d" % (m["id"], m["qd"][0][0][:40] if m["qd"] else None, m["qd"][0][1] if m["qd"] else -1)
+                    except P.Malformed as e:
+                        why = "relayed query is malformed: %s" % e
+                if why:
+                    chk.violation("C20 fails on the implementation: query id=%d type=%d name of %d characters from %s: %s" % (id_, qt, len(name), asker, why),
+                                  [s_.op for s_ in h.steps], key="c20:fwd")
+                    bad += 1
+                    break
+                window.append((asker, id_))
+            else:
+                id_ = rng.choice(ids + [w[1] for w in window[-20:]])
+                reply = struct.pack(">H", id_) + b"\x81\x80" + bytes(rng.randrange(256) for _ in range(rng.randrange(8, 40)))
+                st = h.send("bind " + vlib.hx(reply))
+                if st is None:
+                    break
+                nops += 1
+                rl = [e for e in st.events if e[0] == "rly" and not e[1].startswith("bad:")]
+                askers = [a for a, i in window[-SIZE:] if i == id_]
+                why = None
+                if any(vlib.unhx(e[2]) != reply for e in rl):
+                    why = "the reply was altered on the way"
+                elif len(askers) == 1 and [e[1] for e in rl] != askers:
+                    why = "reply id %d relayed to %s, the only recent asker with that id is %s" % (id_, [e[1] for e in rl], askers[0])
+                elif not askers and rl:
+                    why = "reply id %d matches no remembered query but was sent to %s" % (id_, rl[0][1])
+                elif askers and (len(rl) != 1 or rl[0][1] not in askers):
+                    why = "reply id %d relayed to %s, recent askers with that id: %s" % (id_, [e[1] for e in rl], askers)
+                if why:
+                    chk.violation("C20 fails on the implementation: " + why, [s_.op for s_ in h.steps], key="c20:rly")
+                    bad += 1
+                    break
+        h.close()
+        if h.dead:
+            chk.violation("server harness aborted (rc=%s) on %s\n%s" % (h.dead[1], h.dead[0][:120], h.dead[2][-1200:]), [s_.op for s_ in h.steps] + [h.dead[0]], key="c20:abort")
+            bad += 1
+    chk.cov["evaluations"] = chk.cov.get("evaluations", 0) + nops
+    chk.notes["server_ops"] = nops
+    return bad
+
+
 def replay(chk, path):
+    ops = [l.strip() for l in open(path) if l.strip() and not l.startswith("#")]
+    if ops and ops[0].startswith("cfg "):
+        r = vlib.run_lines(vlib.build_srv(), ops)
+        for o, l in zip(ops, r.lines):
+            print(o[:100], "->", l.split(" | st")[0][:260])
+        print(r.stderr[-800:])
+        chk.cov.update({"evaluations": len(ops), "distinct_nontrivial": 0})
+        return 1 if r.rc else 0
     return vlib.pure_replay(chk, path, oracle_factory())
